@@ -8,7 +8,7 @@ import logging
 from typing import TYPE_CHECKING, Any, TypedDict
 
 from pyopenapi_gen.core.http_status_codes import get_exception_class_name, is_error_code
-from pyopenapi_gen.core.writers.code_writer import CodeWriter
+from pyopenapi_gen.core.writers.code_writer import CodeWriter, python_string_literal
 from pyopenapi_gen.helpers.endpoint_utils import (
     _get_primary_response,
 )
@@ -714,11 +714,11 @@ class EndpointResponseHandlerGenerator:
             is_last = i == len(content_type_items) - 1
 
             # Write conditional statement with lowercase content-type (case-insensitive comparison)
-            content_type_lower = content_type.lower()
+            content_type_lower = python_string_literal(content_type.lower())
             if is_first:
-                writer.write_line(f'if content_type == "{content_type_lower}":')
+                writer.write_line(f"if content_type == {content_type_lower}:")
             elif not is_last:
-                writer.write_line(f'elif content_type == "{content_type_lower}":')
+                writer.write_line(f"elif content_type == {content_type_lower}:")
             else:
                 # Last item - use else for fallback
                 writer.write_line("else:  # Default/fallback content type")
